@@ -1,43 +1,49 @@
 (* C08 - Bounds depend only on current knowledge: idempotent, order-free, undoable.
-   Statements only; proofs in theories/SAKnowledge.v (superadditive computers) and theories/SAMKnowledge.v (SAM approximations). *)
-From ICG Require Import Prelude Bits Table Bounds GameOps FoldLemmas BoundsSpec SASound SAEquiv SAKnowledge Checks.
+   Statements only; proofs in theories/SAKnowledge.v (superadditive computers) and theories/SAMKnowledge.v
+   (SAM approximations, every repetition count).  [computer] = CRef | CCached | CSam r covers the whole BOUNDS registry
+   (RegistryProps, generated from /repo, maps every registered name to one of these). *)
+From ICG Require Import Prelude Bits Table Bounds GameOps FoldLemmas BoundsSpec SASound SAEquiv SAKnowledge SAMKnowledge Checks.
 
 (* Two tables with the same known rows - unknown rows hold arbitrary stale numbers - give the same result
-   (both raise, or both succeed with identical rows for every coalition of the n-player game). Any game class. *)
-Theorem C08_sa_function_of_knowledge :
-  forall (c : computer) n t1 t2, (c = CRef \/ c = CCached) ->
-    same_known_part n t1 t2 -> oteqn n (compute c n t1) (compute c n t2).
-Proof. exact sa_function_of_knowledge. Qed.
-Print Assumptions C08_sa_function_of_knowledge.
+   (both raise, or both succeed with identical rows for every coalition of the n-player game). Any game class, any computer. *)
+Theorem C08_function_of_knowledge :
+  forall (c : computer) n t1 t2, same_known_part n t1 t2 -> oteqn n (compute c n t1) (compute c n t2).
+Proof. exact compute_function_of_knowledge. Qed.
+Print Assumptions C08_function_of_knowledge.
 
-Theorem C08_sa_idempotent :
-  forall (c : computer) n t t', (c = CRef \/ c = CCached) ->
-    compute c n t = Some t' -> oteqn n (compute c n t') (Some t').
-Proof. exact sa_idempotent. Qed.
-Print Assumptions C08_sa_idempotent.
+Theorem C08_idempotent :
+  forall (c : computer) n t t', compute c n t = Some t' -> oteqn n (compute c n t') (Some t').
+Proof. exact compute_idempotent. Qed.
+Print Assumptions C08_idempotent.
 
 (* reveal + recompute + un-reveal + recompute restores a fresh state exactly (hence gap, reward, observation) *)
-Theorem C08_sa_reveal_unreveal_undo :
-  forall (c : computer) n t s x t1, (c = CRef \/ c = CCached) ->
+Theorem C08_reveal_unreveal_undo :
+  forall (c : computer) n t s x t1,
     fresh c n t -> bounded n s -> Kn t s = false ->
     compute c n (set_value t s x) = Some t1 ->
     oteqn n (compute c n (unset_value t1 s)) (Some t).
-Proof. exact sa_reveal_unreveal_undo. Qed.
-Print Assumptions C08_sa_reveal_unreveal_undo.
+Proof. exact reveal_unreveal_undo. Qed.
+Print Assumptions C08_reveal_unreveal_undo.
 
 (* any two operation histories on a fresh game object that end in the same knowledge give the same bounds *)
-Theorem C08_sa_histories_confluent :
-  forall (c : computer) n ops1 ops2, (c = CRef \/ c = CCached) ->
+Theorem C08_histories_confluent :
+  forall (c : computer) n ops1 ops2,
     same_known_part n (run n ops1 init_table) (run n ops2 init_table) ->
     oteqn n (compute c n (run n ops1 init_table)) (compute c n (run n ops2 init_table)).
-Proof. exact sa_histories_confluent. Qed.
-Print Assumptions C08_sa_histories_confluent.
+Proof. exact histories_confluent. Qed.
+Print Assumptions C08_histories_confluent.
+
+(* freshness is what every computed state has *)
+Theorem C08_computed_is_fresh :
+  forall (c : computer) n t t', compute c n t = Some t' -> fresh c n t'.
+Proof. exact computed_is_fresh. Qed.
+Print Assumptions C08_computed_is_fresh.
 
 Definition ex_v : N -> Q := game_of [0; -1; 2; 3; 1#2; 1; 4; 9].
 Definition ex_K : N -> bool := known_in [0; 1; 2; 4; 7; 3]%N.
 Example C08_hypotheses_satisfiable :
   same_known_part 3 (table_of 3 ex_K ex_v 77) (table_of 3 ex_K ex_v (-5))
-  /\ (exists t', compute CCached 3 (table_of 3 ex_K ex_v 77) = Some t' /\ fresh CCached 3 t' /\ Kn t' 5 = false).
+  /\ (exists t', compute (CSam 2) 3 (table_of 3 ex_K ex_v 77) = Some t' /\ fresh (CSam 2) 3 t' /\ Kn t' 5 = false).
 Proof.
   split.
   - intros s Hb. apply in_alln in Hb. revert s Hb. apply Forall_forall. vm_compute.
